@@ -843,6 +843,18 @@ func (p *parser) validateFunctionAlias(aliasTokens []token.Token, params []ast.P
 		return &err
 	}
 
+	// an alias that is nothing but a single parameter matches every expression, including its own argument
+	if len(aliasTokens) == 2 && isAliasParam(aliasTokens[0]) {
+		err := ddperror.New(
+			ddperror.SEM_MALFORMED_ALIAS,
+			ddperror.LEVEL_ERROR,
+			token.NewRange(&aliasTokens[0], &aliasTokens[len(aliasTokens)-1]),
+			"Ein Alias darf nicht nur aus einem Parameter bestehen",
+			p.module.FileName,
+		)
+		return &err
+	}
+
 	nameTypeMap := make(map[string]ddptypes.ParameterType, len(params)) // map that holds the parameter names contained in the alias and their corresponding type
 	nameSet := make(map[string]struct{}, len(params))                   // set that holds the parameter names contained in the alias
 	for _, param := range params {
@@ -905,6 +917,18 @@ func (p *parser) validateStructAlias(aliasTokens []token.Token, fields []*ast.Va
 			ddperror.LEVEL_ERROR,
 			token.NewRange(&aliasTokens[len(aliasTokens)-1], &aliasTokens[len(aliasTokens)-1]),
 			"Der Alias enthält ungültige Symbole",
+			p.module.FileName,
+		)
+		return &err, nil
+	}
+
+	// an alias that is nothing but a single parameter matches every expression, including its own argument
+	if len(aliasTokens) == 2 && isAliasParam(aliasTokens[0]) {
+		err := ddperror.New(
+			ddperror.SEM_MALFORMED_ALIAS,
+			ddperror.LEVEL_ERROR,
+			token.NewRange(&aliasTokens[0], &aliasTokens[len(aliasTokens)-1]),
+			"Ein Alias darf nicht nur aus einem Parameter bestehen",
 			p.module.FileName,
 		)
 		return &err, nil
